@@ -14,6 +14,15 @@ def obligations():
                                    'opus_packet_parse_impl:%d' % (f + 2)], memwords=1,
                         functions=['opus_repacketizer_out_range_impl', 'opus_packet_parse_impl'], tier=tier, budget=bud,
                         bounds='any state with 1..%d frames of 0..%d bytes, any range, any maxlen 0..%d, both framings, pad=%d' % (f, ml, ol, pad)))
+    # frame lengths around the 251/252 boundary of the one-/two-byte length code (and 1275): concrete lengths and range as case selectors
+    for lens, bg, en, tier in (((252, 1, 251), 0, 3, 'quick'), ((251, 0, 252), 0, 3, 'quick'), ((252, 1, 251), 1, 3, 'thorough'), ((252, 252, 252), 0, 3, 'thorough'),
+                               ((251, 252, 253), 0, 2, 'thorough'), ((1275, 252, 0), 0, 3, 'thorough'), ((0, 251, 252), 1, 3, 'thorough')):
+        ml = max(lens); ol = sum(lens) + 10
+        L.append(Ob('H2b.out_range.lens%s.range%d_%d' % ('_'.join(map(str, lens)), bg, en), 'C07_out.c', ['src/repacketizer.c', 'src/opus.c'],
+                    ['-DF=3', '-DML=%d' % ml, '-DOL=%d' % ol, '-DPADV=0', '-DLENS=%d,%d,%d' % lens, '-DBEGIN=%d' % bg, '-DEND=%d' % en], unwind=1, native_mem=True,
+                    unwindset=['harness:%d' % (3 * ml + 3), 'spec_size:4', 'opus_repacketizer_out_range_impl:%d' % (ol + 2), 'opus_packet_parse_impl:5'],
+                    functions=['opus_repacketizer_out_range_impl', 'opus_packet_parse_impl'], tier=tier, budget=900,
+                    bounds='3 frames of exactly %s bytes, range [%d,%d) (case selectors); any frame bytes, any maxlen 0..%d, both framings, pad=0; byte equality checked at one symbolic position per frame' % (lens, bg, en, ol)))
     for code, cm, ml, tier in ((0, 0, 64, 'quick'), (1, 0, 64, 'quick'), (2, 0, 64, 'quick'), (3, 4, 24, 'quick'), (3, 8, 40, 'thorough')):
         defs = ['-DMAXLEN=%d' % ml, '-DNB0MAX=3', '-DCODE=%d' % code, '-DWITC=%d' % (1 if code == 0 else 2)] + (['-DCOUNTMAX=%d' % cm] if code == 3 else [])
         ub = max(cm + 2, 5)
